@@ -89,7 +89,7 @@ def same_outcome(a, b, concrete):
 
 
 # ---------------------------------------------------------------- (a) symbolic tokens
-def tok_job(P, alpha, a_src, b_src, max_sw):
+def tok_job(P, alpha, a_src, b_src, max_sw, pristine=None):
     def mk(src, var):
         pos = [HOLE if w == "?" else w for w in src.split()]
         return toklex.Template(alpha, pos, var=var)
@@ -128,13 +128,19 @@ def tok_job(P, alpha, a_src, b_src, max_sw):
 
             return fn
 
+        if pristine is not None:
+            restore(pristine["snap"])  # module-level state as at load time: paths are independent
         res = sched.run([task(0), task(1)])
         for r, exc in res:
             if exc is not None:
                 raise exc if isinstance(exc, (E.HarnessError,)) else E.HarnessError(f"task raised {exc!r}")
         holders[0].clear()
         holders[1].clear()
-        alone = [parse_outcome(P, lambda i=i: P.CParser(lexer=classes[i]), tpls[i], f"{'ab'[i]}.c") for i in (0, 1)]
+        alone = []
+        for i in (0, 1):
+            if pristine is not None:
+                restore(pristine["snap"])  # "alone" = nothing else has been parsed by any instance
+            alone.append(parse_outcome(P, lambda i=i: P.CParser(lexer=classes[i]), tpls[i], f"{'ab'[i]}.c"))
         rec = {"cls": f"{res[0][0][0]}|{res[1][0][0]}|sw{sched.switches}", "witness": {f"switches-{sched.switches}": True}}
         for i in (0, 1):
             d = same_outcome(res[i][0], alone[i], concrete=False)
@@ -194,14 +200,23 @@ def restore(snap):
             c.update(saved)
 
 
-def canary_job(P, alpha, ctx, n, name):
+def pristine_state(P):
+    """to be called right after the parser module is loaded, before anything is parsed with it: the contents of its
+    module-level containers and the canaries' results in that state"""
+    snap = snapshot(module_containers(P))
+    base = [parse_outcome(P, lambda: P.CParser(), t, f"canary{i}.c") for i, t in enumerate(CANARIES)]
+    base = [(r[0], show(r[1]) if r[0] == "ast" else r[1]) for r in base]
+    restore(snap)
+    return {"snap": snap, "base": base}
+
+
+def canary_job(P, alpha, ctx, n, name, state):
     """Instance A parses a symbolic program (template with holes); then fresh instances parse the canary programs.
     Each canary's result must be what it is in a process where nothing else was parsed.  The module-level containers
     of the parser module are put back to their load-time contents at the start of every path, so paths are independent
     (and the canaries' own baselines are taken from that pristine state)."""
     tpl = ctx.template(alpha, n)
     Lex = toklex.make_lexer_class(tpl)
-    state = {}
 
     def make_engine():
         eng = E.Engine()
@@ -213,9 +228,6 @@ def canary_job(P, alpha, ctx, n, name):
 
     def once():
         eng = E.cur()
-        if "snap" not in state:
-            state["snap"] = snapshot(module_containers(P))
-            state["base"] = [(r[0], show(r[1]) if r[0] == "ast" else r[1]) for r in canary_results()]
         restore(state["snap"])
         a = parse_outcome(P, lambda: P.CParser(lexer=Lex), "", "a.c")
         after = [(r[0], show(r[1]) if r[0] == "ast" else r[1]) for r in canary_results()]
@@ -458,13 +470,14 @@ def main():
     ]
     report.bounds.update({"max_switches": b, "token_pairs": PAIRS_TOK, "hole_alphabet": HOLE, "real_texts": [t[0] for t in TEXTS], "generator_texts": GEN_TEXTS})
     P = symparser.load()
+    pristine = pristine_state(P)  # before anything else is parsed with this module
     nval = checklib.validate_parser_translation(P)
     report.notes.append(f"translator validation: {nval} repository test inputs")
     alpha = toklex.full_alphabet()
     cands = {}
     jobs = []
     for a_src, b_src in PAIRS_TOK:
-        job, _ = tok_job(P, alpha, a_src, b_src, b["tok_switches"])
+        job, _ = tok_job(P, alpha, a_src, b_src, b["tok_switches"], pristine)
         jobs.append(job)
     pairs = [(0, 1), (2, 3), (4, 5), (0, 5), (1, 4), (2, 4), (6, 7), (3, 7), (8, 1), (8, 3)]
     for i, j in pairs:
@@ -482,14 +495,14 @@ def main():
         if isinstance(c, PatCtx):
             if "+pragma" in c.name:
                 continue
-            jobs.append(canary_job(P, alpha, c, 0, c.name[:60]))
+            jobs.append(canary_job(P, alpha, c, 0, c.name[:60], pristine))
         else:
-            jobs.append(canary_job(P, alpha, c, max(1, n - 2) if q else n - 1, c.name[:60]))
+            jobs.append(canary_job(P, alpha, c, max(1, n - 2) if q else n - 1, c.name[:60], pristine))
     mix = {"?S": ["x :", "T :", "case 1 :", "default :", "if ( x )", "while ( x )", ""],
            "?D": ["extern y ( ) ;", "static x ;", "T x ;", "int T ;", "typedef int x ;", "x = 1 ;", ";", "{ }", "T * x ;", "struct y { T T ; } x ;", "enum { T } ;", "register y ;", "auto x , T ;", "T ( T ) ;", "sizeof ( T ) ;"]}
     fn = ["typedef", "int", "T", ";", "void", "y", "(", "void", ")", "{"]
-    jobs.append(canary_job(P, alpha, PatCtx("mix:block", fn, "?S ?S ?D ?D", ["}"], mix), 0, "mix:block"))
-    jobs.append(canary_job(P, alpha, PatCtx("mix:file", ["typedef", "int", "T", ";"], "?D ?D ?D", [], mix), 0, "mix:file"))
+    jobs.append(canary_job(P, alpha, PatCtx("mix:block", fn, "?S ?S ?D ?D", ["}"], mix), 0, "mix:block", pristine))
+    jobs.append(canary_job(P, alpha, PatCtx("mix:file", ["typedef", "int", "T", ";"], "?D ?D ?D", [], mix), 0, "mix:file", pristine))
     report.bounds["canaries"] = CANARIES
     first = True
     for job in jobs:
